@@ -6,13 +6,18 @@ import NeumannModel.TwoPC.Model
             if all participants voted and some vote is not YES: phase := Aborting, (after the lock is
             dropped) queue the abort broadcast; if all voted YES: clone the tx (snapshot) and go on.
     Phase 2 (NO lock held): pairwise cosine test of the snapshot's deltas.
-    Phase 3 (under `pending.write()` again): 3a, a non-orthogonal overlapping pair:
-            `if let Some(tx) = pending.get_mut(..) { tx.phase = Aborting }`, then queue the abort
-            broadcast unconditionally; 3b, otherwise:
-            `if let Some(tx) = pending.get_mut(..) { tx.phase = Prepared; return Some(Prepared) }`,
-            `Ok(None)` when the tx has gone meanwhile.  Neither 3a nor 3b looks at the CURRENT phase.
+    Phase 3 (under `pending.write()` again; the code since f07ecb9a): 3a, a non-orthogonal overlapping
+            pair: `match pending.get_mut(..) { Some(tx) if tx.phase == Preparing => tx.phase = Aborting,
+            _ => return Ok(None) }`, then queue the abort broadcast; 3b, otherwise:
+            `if let Some(tx) = pending.get_mut(..) { if tx.phase != Preparing { return Ok(None) };
+            tx.phase = Prepared; return Some(Prepared) }`, `Ok(None)` when the tx has gone meanwhile.
+            Only a transaction that is STILL `Preparing` changes phase.
+    Before f07ecb9a (`recordVoteP3Old`) neither 3a nor 3b looked at the CURRENT phase, and 3a queued its
+    abort broadcast unconditionally.
   `Coordinator.recordVote` (Model.lean) is the two sections back to back (`recordVote_eq_phases`);
-  `cluster.rs` calls `record_vote` from its single message loop, so in-tree nothing runs in between.
+  `cluster.rs` calls `record_vote` from its single message loop, so in-tree nothing runs in between, but
+  the API is `&self`: `CSys` below is the coordinator shared by any number of threads, every call one
+  event and `record_vote` two.
   Import-free, total, computable.
 -/
 namespace Neumann.TwoPC
@@ -45,8 +50,28 @@ def Coordinator.recordVoteP1 (c : Coordinator) (tx sh : Nat) (v : Vote) : Except
 def setPhase (ps : List DTx) (tx : Nat) (ph : Phase) : List DTx :=
   ps.map (fun t => if t.id = tx then { t with phase := ph } else t)
 
-/-- phases 2 + 3 of `record_vote`, run on the snapshot taken in phase 1 against the CURRENT `pending` -/
+/-- phases 2 + 3 of `record_vote` (the code as it is, f07ecb9a), run on the snapshot taken in phase 1
+    against the CURRENT `pending`: a transaction that is gone or no longer `Preparing` is left alone
+    (nothing queued, `Ok(None)`). -/
 def Coordinator.recordVoteP3 (c : Coordinator) (tx : Nat) (snap : DTx) (nonOrth : Nat → Nat → Bool) :
+    Coordinator × Option Phase :=
+  if crossConflict nonOrth snap.votes then
+    match findTx c.pending tx with
+    | some t =>
+      if t.phase == .preparing then
+        ({ c with pending := setPhase c.pending tx .aborting,
+                  pendingAborts := c.pendingAborts ++ [(tx, .crossShard, snap.participants)] }, some .aborting)
+      else (c, none)
+    | none => (c, none)
+  else
+    match findTx c.pending tx with
+    | some t =>
+      if t.phase != .preparing then (c, none)
+      else ({ c with pending := setPhase c.pending tx .prepared }, some .prepared)
+    | none => (c, none)
+
+/-- phases 2 + 3 BEFORE f07ecb9a: no look at the current phase; 3a queues its abort unconditionally. -/
+def Coordinator.recordVoteP3Old (c : Coordinator) (tx : Nat) (snap : DTx) (nonOrth : Nat → Nat → Bool) :
     Coordinator × Option Phase :=
   if crossConflict nonOrth snap.votes then
     ({ c with pending := setPhase c.pending tx .aborting,
@@ -56,17 +81,81 @@ def Coordinator.recordVoteP3 (c : Coordinator) (tx : Nat) (snap : DTx) (nonOrth 
     | some _ => ({ c with pending := setPhase c.pending tx .prepared }, some .prepared)
     | none => (c, none)
 
-/-- VARIANT (not the code): phase 3 that re-checks, under the lock, that the tx is still `Preparing`
-    (the proposed repair `proposed/C03-record-vote-phase3-recheck.diff`). -/
-def Coordinator.recordVoteP3Recheck (c : Coordinator) (tx : Nat) (snap : DTx) (nonOrth : Nat → Nat → Bool) :
-    Coordinator × Option Phase :=
-  match findTx c.pending tx with
-  | none => (c, none)
-  | some t =>
-    if t.phase != .preparing then (c, none)
-    else if crossConflict nonOrth snap.votes then
-      ({ c with pending := setPhase c.pending tx .aborting,
-                pendingAborts := c.pendingAborts ++ [(tx, .crossShard, snap.participants)] }, some .aborting)
-    else ({ c with pending := setPhase c.pending tx .prepared }, some .prepared)
+/-! ## the coordinator shared by several threads
+
+  Every `&self` call of the coordinator is one atomic event (each runs under the `pending` write
+  lock), except `record_vote`, which is the two events `voteP1` / `voteP3`.  `voteP3` carries ANY
+  snapshot and ANY similarity outcome — a superset of what a thread that went through phase 1 can
+  hold — and may run at any later point, any number of times, in any order with the other threads'
+  events. -/
+
+inductive CEv
+  | begin (now : Nat) (participants : List Nat)
+  | voteP1 (tx sh : Nat) (v : Vote)
+  | voteP3 (tx : Nat) (snap : DTx) (nonOrth : Nat → Nat → Bool)
+  | commit (tx : Nat)
+  | abort (tx : Nat)
+  | sweep (now : Nat)
+  | drain                                    -- `take_pending_aborts` (the glue broadcasts them)
+
+structure CSys where
+  c : Coordinator
+  commits : List Nat      -- ghost: transactions for which `commit()` returned Ok (commit decisions)
+  aborts : List Nat       -- ghost: `abort()` returned Ok, or an abort broadcast was taken from the queue
+
+/-- an abort decision exists for `tx`: `abort()` succeeded, or an abort broadcast was queued -/
+def CSys.abortDecided (s : CSys) (tx : Nat) : Prop :=
+  tx ∈ s.aborts ∨ tx ∈ s.c.pendingAborts.map (·.1)
+
+instance (s : CSys) (tx : Nat) : Decidable (s.abortDecided tx) := by
+  unfold CSys.abortDecided; exact inferInstance
+
+def CSys.stepWith (p3 : Coordinator → Nat → DTx → (Nat → Nat → Bool) → Coordinator × Option Phase)
+    (s : CSys) : CEv → CSys
+  | .begin now ps =>
+    match s.c.begin now ps with
+    | .ok r => { s with c := r.1 }
+    | .error _ => s
+  | .voteP1 tx sh v =>
+    match s.c.recordVoteP1 tx sh v with
+    | .ok (.done c' _) => { s with c := c' }
+    | .ok (.check c' _) => { s with c := c' }
+    | .error _ => s
+  | .voteP3 tx snap f => { s with c := (p3 s.c tx snap f).1 }
+  | .commit tx =>
+    match s.c.commit tx with
+    | .ok c' => { s with c := c', commits := s.commits ++ [tx] }
+    | .error _ => s
+  | .abort tx =>
+    match s.c.abort tx with
+    | .ok c' => { s with c := c', aborts := s.aborts ++ [tx] }
+    | .error _ => s
+  | .sweep now => { s with c := (s.c.cleanupTimeouts now).1 }
+  | .drain => { s with c := s.c.takePendingAborts.1, aborts := s.aborts ++ s.c.pendingAborts.map (·.1) }
+
+/-- the code as it is -/
+def CSys.step (s : CSys) (e : CEv) : CSys := s.stepWith Coordinator.recordVoteP3 e
+/-- the code before f07ecb9a -/
+def CSys.stepOld (s : CSys) (e : CEv) : CSys := s.stepWith Coordinator.recordVoteP3Old e
+
+def CSys.init (maxConcurrent prepareTimeout : Nat) : CSys := ⟨⟨[], [], maxConcurrent, prepareTimeout, 0⟩, [], []⟩
+
+inductive CReach (s0 : CSys) : CSys → Prop
+  | refl : CReach s0 s0
+  | step {s : CSys} (e : CEv) : CReach s0 s → CReach s0 (s.step e)
+
+/-- Thread A's `record_vote(tx, shA, vA)` with thread B's whole `record_vote(tx, shB, vB)` between its
+    two critical sections (the interleaving of the two-thread regression probe): A's phase 1, B (phases
+    1–3 back to back, since nothing of A's runs in between them), A's phases 2 + 3 on A's snapshot.
+    `none` when A's phase 1 does not end in a snapshot (then there is no window). -/
+def Coordinator.recordVoteInterleaved (c : Coordinator) (tx shA : Nat) (vA : Vote) (shB : Nat) (vB : Vote)
+    (f : Nat → Nat → Bool) :
+    Option (Coordinator × Except VoteErr (Option Phase) × Option Phase) :=
+  match c.recordVoteP1 tx shA vA with
+  | .ok (.check c1 snap) =>
+    match c1.recordVote tx shB vB f with
+    | .ok (c2, rB) => let r := c2.recordVoteP3 tx snap f; some (r.1, .ok rB, r.2)
+    | .error e => let r := c1.recordVoteP3 tx snap f; some (r.1, .error e, r.2)
+  | _ => none
 
 end Neumann.TwoPC
